@@ -160,6 +160,13 @@ Definition is_declared (a : gast) (n : str) : bool :=
   | None => false
   end.
 
+(* every index in the %token-directive set is the index of a token *)
+Definition dirs_in_range (a : gast) : Prop :=
+  forall idx, In idx (a_token_directives a) -> idx < List.length (a_tokens a).
+(* the state knows exactly the names of D as %token-declared *)
+Definition tok_inv (D : str -> bool) (a : gast) : Prop :=
+  dirs_in_range a /\ forall x, is_declared a x = D x.
+
 (* conditions on the abstract grammar alone *)
 Definition count_decl (f : adecl -> bool) (ag : agram) : nat := List.length (filter f (ag_decls ag)).
 Definition rule_tok_names (ag : agram) : list str :=
@@ -219,7 +226,7 @@ Definition rule_roundtrip_stmt : Prop :=
   forall fa D src pre rl r rest i n a g e,
     src = pre ++ print_rule rl r ++ rest -> i = byte_len pre ->
     wf_rule D rl r -> item_start rest ->
-    (forall x, is_declared a x = D x) ->
+    tok_inv D a ->
     exists n',
       sbind (parse_rule true fa KOriginal src (byte_len src) (fuel_for src) (mkSt n a g e) i)
             (fun st j => P_ws src st j true)
@@ -230,7 +237,7 @@ Definition rules_roundtrip_stmt : Prop :=
   forall fa D l src pre gap rs i n a g e,
     src = pre ++ kw_pp ++ gap ++ print_rules l 0 rs -> i = byte_len pre ->
     layout_text gap -> wf_rules D l 0 rs ->
-    (forall x, is_declared a x = D x) ->
+    tok_inv D a ->
     exists n',
       parse_rules true fa KOriginal src (byte_len src) (fuel_for src) (mkSt n a g e) i
       = Done (mkSt n' (rules_eff fa l 0 (i + 2 + byte_len gap) (actiont_of g) rs a) g e, Ok (byte_len src)).
@@ -263,3 +270,98 @@ Definition decl_step_for (x : adecl) : Prop :=
           (mkSt n' (decl_eff dl i lvl x a) g e) (i + byte_len (print_decl dl x))
           (if is_prec x then S lvl else lvl).
 Definition decl_step_stmt : Prop := forall x, decl_step_for x.
+
+(* the chained precondition of a declaration list printed at [off] *)
+Fixpoint decls_pre (l : layout) (d off lvl : nat) (ds : list adecl) (a : gast) : Prop :=
+  match ds with
+  | [] => True
+  | x :: ds' =>
+      decl_pre x a /\
+      decls_pre l (S d) (off + byte_len (print_decl (dlay_of l d) x)) (if is_prec x then S lvl else lvl) ds'
+                (decl_eff (dlay_of l d) off lvl x a)
+  end.
+
+(* the declarations section: leading layout, declarations, up to "%%" *)
+Definition declarations_roundtrip_stmt : Prop :=
+  forall l ds src rest n a g e,
+    src = l_gap l [0] ++ print_decls l 0 ds ++ kw_pp ++ rest ->
+    layout_text (l_gap l [0]) -> wf_decls l 0 ds ->
+    decls_pre l 0 (byte_len (l_gap l [0])) 0 ds a ->
+    exists n',
+      parse_declarations true KOriginal src (byte_len src) (fuel_for src) (mkSt n a g e) 0
+      = Done (mkSt n' (decls_eff l 0 (byte_len (l_gap l [0])) 0 ds a) g e,
+              Ok (byte_len (l_gap l [0]) + byte_len (print_decls l 0 ds))).
+
+(* the syntactic conditions of [wf_agram] give the chained preconditions *)
+Definition decls_pre_wf_stmt : Prop :=
+  forall l ag, wf_agram ag -> decls_pre l 0 (decls_off l) 0 (ag_decls ag) ast_new.
+(* after the declarations the state knows exactly the %token names as declared *)
+Definition decls_tok_inv_stmt : Prop :=
+  forall l ag, tok_inv (declared_b ag) (decls_eff l 0 (decls_off l) 0 (ag_decls ag) ast_new).
+
+(* validation of the denoted AST finds nothing *)
+Definition validation_clean_stmt : Prop :=
+  forall fa l ag, wf_agram ag -> wf_layout l ag ->
+    complete_and_validate (ast_of fa l ag) = Done None.
+
+(* ---- the whole file ----------------------------------------------------------- *)
+(* parsing the printed grammar yields its AST, whatever the layout; the errors are
+   exactly those of validating that AST *)
+Definition yacc_parse_roundtrip_stmt : Prop :=
+  forall fa l ag, wf_agram ag -> wf_layout l ag ->
+    exists v,
+      complete_and_validate (ast_of fa l ag) = Done v /\
+      run_case true fa KOriginal (print l ag)
+      = Done (TResult (ast_of fa l ag) (match v with Some e => [e] | None => [] end) (warnings_of fa l ag)).
+
+Definition yacc_roundtrip_stmt : Prop :=
+  forall fa l ag, wf_agram ag -> wf_layout l ag ->
+    run_case true fa KOriginal (print l ag) = Done (TResult (ast_of fa l ag) [] (warnings_of fa l ag)).
+
+(* ---- what the denoted AST contains: the abstract grammar, nothing else ----------- *)
+Definition erase_sym (s : symbol) : asym :=
+  match s with SRule n _ => ARule n | SToken n _ => ATok n end.
+(* the rule block that owns each production, in order *)
+Definition prod_owners (ag : agram) : list str :=
+  flat_map (fun r => map (fun _ => ar_name r) (ar_prods r)) (ag_rules ag).
+(* first occurrences *)
+Fixpoint dedup (l : list str) : list str :=
+  match l with
+  | [] => []
+  | x :: l' => x :: filter (fun y => negb (str_eqb x y)) (dedup l')
+  end.
+(* (token, level, kind) for every precedence line, levels counted from 0 in declaration order *)
+Fixpoint prec_levels (lvl : nat) (ps : list (assoc * list str)) : list (str * nat * assoc) :=
+  match ps with
+  | [] => []
+  | (k, ts) :: ps' => map (fun t => (t, lvl, k)) ts ++ prec_levels (S lvl) ps'
+  end.
+Definition has_avoid (ag : agram) : bool :=
+  existsb (fun d => match d with DAvoid _ => true | _ => false end) (ag_decls ag).
+
+Definition ast_of_faithful_stmt : Prop :=
+  forall fa l ag, wf_agram ag ->
+    let A := ast_of fa l ag in
+    (* productions: symbols (kind and name), %prec token, action text, in source order *)
+    map (fun p => (map erase_sym (p_syms p), p_prec p, option_map fst (p_action p))) (a_prods A)
+      = map (fun p => (ap_syms p, ap_prec p, ap_action p)) (flat_map ar_prods (ag_rules ag)) /\
+    (* rules: one entry per distinct name in order of first block, owning exactly its blocks' productions *)
+    map r_name (a_rules A) = dedup (map ar_name (ag_rules ag)) /\
+    (forall r, In r (a_rules A) ->
+       r_pidxs r = filter (fun i => str_eqb (nth i (prod_owners ag) []) (r_name r))
+                          (seq 0 (List.length (prod_owners ag))) /\
+       r_actiont r = None) /\
+    (* start rule: %start, else the first rule *)
+    option_map fst (a_start A)
+      = match ag_start ag with Some n => Some n | None => option_map ar_name (hd_error (ag_rules ag)) end /\
+    (* precedences, %epp, %avoid_insert, %expect, %expect-rr *)
+    map (fun x => (fst x, fst (fst (snd x)), snd (fst (snd x)))) (a_precs A) = prec_levels 0 (ag_precs ag) /\
+    map (fun x => (fst x, fst (snd (snd x)))) (a_epp A) = ag_epp ag /\
+    option_map (map fst) (a_avoid_insert A) = (if has_avoid ag then Some (ag_avoid ag) else None) /\
+    option_map fst (a_expect A) = ag_expect ag /\
+    option_map fst (a_expectrr A) = ag_expectrr ag /\
+    (* %token-declared names; nothing else *)
+    (forall n, is_declared A n = mem_str (ag_tokens ag) n) /\
+    List.length (a_spans A) = List.length (a_tokens A) /\
+    a_implicit_tokens A = None /\ a_parse_param A = None /\ a_parse_generics A = None /\
+    a_programs A = None /\ a_expect_unused A = [].
